@@ -388,14 +388,17 @@ Definition method (o : val) (m : string) (args : list val) : option (val * optio
   | _ => None
   end.
 
-(* stable insertion sort of (key, item) pairs by numeric key *)
+(* stable insertion sort of (key, item) pairs by numeric key.  [e] stood BEFORE every element of the sorted tail [l] in the
+   original order: it is put in front of the first y whose key is not smaller than its own, so items with equal keys keep
+   their original order (Python's sorted is stable).  (Until the C11 tie this read "in front of the first y with key e < key y",
+   which REVERSED runs of equal keys; no unit tied before sorts items with equal keys.) *)
 Fixpoint insert_keyed (e : val * val) (l : list (val * val)) : option (list (val * val)) :=
   match l with
   | [] => Some [e]
   | y :: t =>
-      match cmp_eval Lt (fst e) (fst y) with
-      | Some true => Some (e :: y :: t)
-      | Some false => option_map (cons y) (insert_keyed e t)
+      match cmp_eval Lt (fst y) (fst e) with
+      | Some true => option_map (cons y) (insert_keyed e t)
+      | Some false => Some (e :: y :: t)
       | None => None
       end
   end.
@@ -445,6 +448,55 @@ Definition cmpop_name (op : cmpop) : string :=
   | Eq => "eq" | NotEq => "ne" | Lt => "lt" | LtE => "le" | Gt => "gt" | GtE => "ge"
   | In => "in" | NotIn => "notin" | Is => "is" | IsNot => "isnot"
   end.
+
+(* ---- typed handlers, comprehensions (helpers of STryExc / EListComp) ------------------------ *)
+(* names starting with "$" are control signals of the interpreter itself ("$continue"), never Python exceptions *)
+Definition internal_exc (n : string) : bool :=
+  match n with String c _ => Ascii.eqb c "$"%char | EmptyString => false end.
+
+(* does a handler `except (names):` catch the exception called n ?  Exception classes are names: a handler catches the
+   class it names; "Exception" / "BaseException" catch every Python exception.  (No other subclass relation is known:
+   the translator only accepts handler classes for which this is what Python does with the exceptions the subset raises.) *)
+Definition exc_matches (n : string) (names : list string) : bool :=
+  (negb (internal_exc n) &&
+   existsb (fun h => String.eqb h n || String.eqb h "Exception" || String.eqb h "BaseException") names)%bool.
+
+Fixpoint set_vars (names : list string) (vs : list val) (st : state) : state :=
+  match names, vs with
+  | n :: ns, v :: r => set_vars ns r (set_var n v st)
+  | _, _ => st
+  end.
+
+(* bind the loop variable of a comprehension to an item; `for a, b in ..` also unpacks it *)
+Definition bind_item (x : string) (names : list string) (i : val) (st : state) : outcome unit :=
+  let st1 := set_var x i st in
+  match names with
+  | [] => Ok tt st1
+  | _ :: _ =>
+      if foreign i then Stuck "unpacking a library object"
+      else match i with
+           | VList l | VTuple l =>
+               if Nat.eqb (List.length l) (List.length names) then Ok tt (set_vars names l st1)
+               else Exc "ValueError" st1       (* too many / not enough values to unpack *)
+           | _ => Stuck "unpacking"
+           end
+  end.
+
+Fixpoint remove_var (x : string) (l : list (string * val)) : list (string * val) :=
+  match l with
+  | [] => []
+  | (y, w) :: r => if String.eqb x y then r else (y, w) :: remove_var x r
+  end.
+
+(* give x the binding it had in [old] (none: unbind it) *)
+Definition restore_var (old : list (string * val)) (st : state) (x : string) : state :=
+  match lookup x old with
+  | Some v => set_var x v st
+  | None => mkState (remove_var x (vars st)) (events st)
+  end.
+
+Definition restore_vars (names : list string) (old : list (string * val)) (st : state) : state :=
+  fold_left (restore_var old) names st.
 
 (* ---- the interpreter ---------------------------------------------------------- *)
 Section Interp.
@@ -570,8 +622,26 @@ Section Interp.
                        end) items st1) (fun kis st2 =>
                 match sort_keyed kis with
                 | Some sorted => Ok (VList sorted) st2
-                | None => Stuck "sorted: keys are not comparable numbers"
+                | None => ext "$sorted" [VList (map fst kis); VList (map snd kis)] [] st2
+                    (* keys that are not numbers of the subset (tuples, str): the unit's [ext] is asked for the
+                       stably sorted items, given the keys and the items in their original order *)
                 end)
+          end)
+    | EListComp elt x names it cond =>
+        bind (eval it st) (fun v st1 =>
+          match (if foreign v then None else container_items v) with
+          | None => Stuck "comprehension over a non-container"
+          | Some items =>
+              bind ((fix go (l : list val) (st : state) {struct l} : outcome (list val) :=
+                       match l with
+                       | [] => Ok [] st
+                       | i :: r =>
+                           bind (bind_item x names i st) (fun _ st' =>
+                             bind (eval cond st') (fun c st2 =>
+                               if truthy c
+                               then bind (eval elt st2) (fun y st3 => bind (go r st3) (fun ys st4 => Ok (y :: ys) st4))
+                               else go r st2))
+                       end) items st1) (fun ys st2 => Ok (VList ys) (restore_vars (x :: names) (vars st1) st2))
           end)
     end.
 
@@ -662,7 +732,12 @@ Section Interp.
                 match method ov m vs with
                 | Some (_, None) => Ok CNormal st2
                 | Some (_, Some nv) => bind (store o nv st2) (fun _ st3 => Ok CNormal st3)
-                | None => Stuck ("method " ++ m)
+                | None =>
+                    (* not a container method (f.write(x), t.add_(1)): the unit's [ext] is asked for the UPDATED RECEIVER
+                       ("$method!." ++ m, receiver first), which is written back through the place [o] - the same
+                       protocol as for the mutating container methods above; a receiver that is not a place is Stuck *)
+                    bind (ext ("$method!." ++ m) (ov :: vs) [] st2) (fun nv st3 =>
+                      bind (store o nv st3) (fun _ st4 => Ok CNormal st4))
                 end))
         | _ => bind (eval e st) (fun _ st1 => Ok CNormal st1)
         end
@@ -685,6 +760,35 @@ Section Interp.
               end))
         | _ => Stuck "del target"
         end
+    | STryExc body handlers =>
+        match exec body st with
+        | Exc n st1 =>
+            (fix pick (hs : list (list string * stmt)) {struct hs} : outcome ctl :=
+               match hs with
+               | [] => Exc n st1
+               | (names, h) :: r =>
+                   if exc_matches n names then exec h (set_var "$exc" (VStr n) st1) else pick r
+               end) handlers
+        | o => o
+        end
+    | SContinue => Exc "$continue" st       (* caught by the enclosing SForC; no handler of STryExc matches it *)
+    | SForC x e body =>
+        bind (eval e st) (fun v st1 =>
+          match iter_items v with
+          | None => Stuck "for over a non-container"
+          | Some items =>
+              (fix loop (l : list val) (st : state) {struct l} : outcome ctl :=
+                 match l with
+                 | [] => Ok CNormal st
+                 | i :: r =>
+                     match exec body (set_var x i st) with
+                     | Ok CNormal st' => loop r st'
+                     | Ok (CReturn w) st' => Ok (CReturn w) st'
+                     | Exc n st' => if String.eqb n "$continue" then loop r st' else Exc n st'
+                     | Stuck w => Stuck w
+                     end
+                 end) items st1
+          end)
     end.
 
   (* run a function body: initial variables -> (return value or None, final state) *)
